@@ -229,6 +229,26 @@ def c11b(ck, prog):
         okq = lo == 2 and quotes >= 2
         ck.ob(R, "request-value:quote-strip", okq, v.loc(c.sp), "" if okq else "the surrounding double quotes of a cookie value are stripped only when its length is at least %s (and %d quote test(s)): RFC 6265 allows the empty quoted value `\"\"`, which then keeps its quotes and is refused" % (lo, quotes),
               how="strip under len >= 2, first == '\"', last == '\"'")
+    elif [1 for g in {g.key: g for g in fam_v}.values() for bi in g.live_blocks() for st in g.blocks[bi]["st"] if st["k"] == "=" and st["r"][0] == "ref" and any(pr[0] == "sub" and pr[1:] == [1, 1, True] for pr in st["r"][2][1])]:
+        # `if let [b'"', inner @ .., b'"'] = bytes { bytes = inner }`: the sub-slice 1..len-1 under the two element tests
+        okq = False
+        for g in {g.key: g for g in fam_v}.values():
+            for bi in sorted(g.live_blocks()):
+                for st in g.blocks[bi]["st"]:
+                    if st["k"] == "=" and st["r"][0] == "ref" and any(pr[0] == "sub" and pr[1:] == [1, 1, True] for pr in st["r"][2][1]):
+                        base = st["r"][2][0]
+                        first = last = False
+                        for fa in guards.facts_at(g, prog, bi):
+                            if fa.kind == "int" and fa.values == {34}:
+                                dsc = g.blocks[fa.sw_bb]["t"]["discr"]
+                                if dsc[0] in ("c", "m") and dsc[1][0] == base:
+                                    for pr in dsc[1][1]:
+                                        if pr[0] == "ci" and pr[1] == 0 and pr[3] is False:
+                                            first = True
+                                        if pr[0] == "ci" and pr[1] == 1 and pr[3] is True:
+                                            last = True
+                        okq = first and last
+        ck.ob(R, "request-value:quote-strip", okq, v.loc(None), "" if okq else "the slice pattern that strips the quotes does not test both the first and the last byte for `\"`", how="[b'\"', inner @ .., b'\"'] => inner")
     elif len(sp) >= 2:
         lits = sorted((c.fn.const_args(c)[1] or {}).get("b") and bytes((c.fn.const_args(c)[1] or {}).get("b")).decode("latin1") or (c.fn.const_args(c)[1] or {}).get("s") or "?" for c in sp)
         okq = all(x.strip("\x00") == '"' or x == '"' for x in lits)
